@@ -283,8 +283,11 @@ def _build_from_config(case, o: Oracle, roots, used, isk, user_data, commands, s
         o.label("key_numbering:from_database")
         wraps_version = int(info.get("key_wraps_version", 1))
     supported = set(info.get("supported_commands", []))
-    _N[0] += 1
-    wd = os.path.join(_CTX.get("work") or ".", "c05-%d-%d" % (os.getpid(), _N[0]))
+    import shutil
+
+    # one directory per worker, emptied for every case: file names repeat with other content (edit the inputs, build again)
+    wd = os.path.join(_CTX.get("work") or ".", "c05-%d" % os.getpid())
+    shutil.rmtree(wd, ignore_errors=True)
     os.makedirs(wd, exist_ok=True)
     cfg_cmds, real = [], []
     for i, c in enumerate(commands):
